@@ -345,6 +345,18 @@ pub fn decode_record(buf: &[u8], r: &WRecord) -> Result<(ARecord, Fill), DecErr>
 /// Decode a whole message into the abstract packet: the first OPT record of the additional
 /// section becomes `edns` and contributes the upper 8 bits of the response code.
 pub fn decode_message(buf: &[u8]) -> Result<(APacket, Vec<Fill>), MsgErr> {
+    decode_message_lifting(buf, 0)
+}
+
+/// number of OPT-typed entries in the additional section of a walkable message
+pub fn opt_entries(buf: &[u8]) -> usize {
+    walk(buf).map(|w| w.records.iter().filter(|r| r.section == 2 && r.rtype == 41).count()).unwrap_or(0)
+}
+
+/// as decode_message, with the `lift`-th (0-based) OPT-typed additional entry taken as the EDNS record (RFC 6891
+/// allows one; which of several a reader picks is its own business)
+pub fn decode_message_lifting(buf: &[u8], lift: usize) -> Result<(APacket, Vec<Fill>), MsgErr> {
+    let mut opts_seen = 0usize;
     let w = walk(buf).map_err(MsgErr::Walk)?;
     let mut p = APacket {
         id: w.id,
@@ -365,7 +377,11 @@ pub fn decode_message(buf: &[u8]) -> Result<(APacket, Vec<Fill>), MsgErr> {
     for (i, r) in w.records.iter().enumerate() {
         let (rec, fill) = decode_record(buf, r).map_err(|e| MsgErr::Rdata(i, e))?;
         fills.push(fill);
-        if r.section == 2 && r.rtype == 41 && p.edns.is_none() {
+        let this_opt = r.section == 2 && r.rtype == 41;
+        if this_opt {
+            opts_seen += 1;
+        }
+        if this_opt && p.edns.is_none() && opts_seen == lift + 1 {
             let options = match &rec.rdata {
                 ARData::Typed { fields, .. } => match &fields[0] {
                     Val::Pairs(v) => v.clone(),
